@@ -342,10 +342,12 @@ func runPoolCase(c *checkCtx, cs poolCase) (res poolResult) {
 		binary.BigEndian.PutUint32(req[8:12], uint32(n))
 		binary.BigEndian.PutUint32(req[12:16], flags)
 		fillKeyed(req[poolHdr:], id, 0)
+		failWhy := ""
 		fail := func() {
 			atomic.AddInt64(&res.errors, 1)
 			if quiesced {
-				violate("round trip on a stream obtained in a quiesced phase failed")
+				violate("round trip on a stream obtained in a quiesced phase failed at %s (stream %d open=%v state=%d sessionClosed=%v fallbackState=%v)",
+					failWhy, s.StreamID(), s.IsOpen(), s.getStreamState(), s.Session().IsClosed(), s.inFallbackState)
 			}
 			if release() {
 				s.Close()
@@ -353,24 +355,31 @@ func runPoolCase(c *checkCtx, cs poolCase) (res poolResult) {
 			}
 		}
 		if _, err := s.BufferWriter().WriteBytes(req); err != nil {
+			failWhy = "WriteBytes: " + err.Error()
 			fail()
 			return
 		}
 		if err := s.Flush(false); err != nil {
+			failWhy = "Flush: " + err.Error()
 			fail()
 			return
 		}
 		s.SetReadDeadline(time.Now().Add(10 * time.Second))
 		hdr, err := s.BufferReader().ReadBytes(poolHdr)
 		if err != nil {
+			failWhy = "ReadBytes(header): " + err.Error()
 			fail()
 			return
 		}
 		gotID := binary.BigEndian.Uint64(hdr[0:8])
 		gotN := int(binary.BigEndian.Uint32(hdr[8:12]))
 		if gotID != id || gotN != n {
-			violate("caller %d sent request id %d (%d bytes) on stream %d but the first bytes it read are a reply to id %d (%d bytes): bytes from an earlier use",
-				me, id, n, s.StreamID(), gotID, gotN)
+			diag := fmt.Sprintf("header bytes % x; recvBuf.len=%d slices=%d fallbackState=%v state=%d", hdr, s.recvBuf.Len(), s.recvBuf.sliceList.size(), s.inFallbackState, s.getStreamState())
+			if f := s.recvBuf.sliceList.front(); f != nil {
+				diag += fmt.Sprintf(" front{fromShm=%v off=%d cap=%d r=%d w=%d}", f.isFromShm, f.offsetInShm, f.cap, f.readIndex, f.writeIndex)
+			}
+			violate("caller %d sent request id %d (%d bytes) on stream %d but the first bytes it read are a reply to id %d (%d bytes): bytes from an earlier use [%s]",
+				me, id, n, s.StreamID(), gotID, gotN, diag)
 			release()
 			s.Close()
 			return
@@ -784,6 +793,9 @@ func checkPool(c *checkCtx) {
 	n := c.pick(36, 1500)
 	for i := 0; i < n; i++ {
 		cs := genPoolCase(c, i)
+		if only := os.Getenv("VERIF_C15_ONLY"); only != "" && only != fmt.Sprint(i) {
+			continue
+		}
 		suspectsBefore := abaSuspectCount()
 		res := runPoolCase(c, cs)
 		c.eval(1)
